@@ -142,6 +142,40 @@ func rulePVGo(r *Run) {
 				}
 			}
 		}
+		// functions called from the goroutine must not write package-level variables
+		seenFn := map[*ssa.Function]bool{}
+		var scan func(f *ssa.Function, depth int)
+		scan = func(f *ssa.Function, depth int) {
+			if f == nil || seenFn[f] || f.Blocks == nil || depth > 4 {
+				return
+			}
+			seenFn[f] = true
+			allInstrs(f, func(in ssa.Instruction) {
+				switch x := in.(type) {
+				case *ssa.Store:
+					if g, ok := addrRoot(x.Addr).(*ssa.Global); ok {
+						good = false
+						o.Fail(r.pos(x.Pos()), "%s, running in concurrently started goroutines, writes the package-level variable %s (data race)", shortFuncName(f), g.Name())
+					}
+				case *ssa.MapUpdate:
+					if g, ok := addrRoot(x.Map).(*ssa.Global); ok {
+						good = false
+						o.Fail(r.pos(x.Pos()), "%s, running in concurrently started goroutines, updates the package-level map %s (data race)", shortFuncName(f), g.Name())
+					}
+				case ssa.CallInstruction:
+					if callee := staticCallee(x); callee != nil {
+						pk := callee.Pkg
+						if pk == nil && callee.Origin() != nil {
+							pk = callee.Origin().Pkg
+						}
+						if pk != nil && isFirstParty(pk.Pkg.Path()) {
+							scan(callee, depth+1)
+						}
+					}
+				}
+			})
+		}
+		scan(gs.Body, 0)
 		// join: every return of the parent reachable from the start site is dominated by Wait on the same group
 		if gs.Group != nil {
 			var wait ssa.CallInstruction
